@@ -29,7 +29,8 @@ def scenario(rng, ticks):
     multi = rng.random() < 0.25
     plan = {}
     for rt in ("lds", "rds", "cds", "eds"):
-        pool = ["l1", "l2", "l3"] if rt == "lds" else g.NAMES[rt][:3]
+        # the same name occurs in several types (a cluster and its endpoint set usually share their name)
+        pool = ["l1", "l2", "l3"] if rt == "lds" else g.NAMES[rt][:3] + ["shared"]
         names = [n for n in pool if rng.random() < 0.6]
         if rt == "lds" and not lds_warm and rng.random() < 0.5:
             names.append("virtualInbound")
